@@ -70,6 +70,10 @@ def generate(rng, tier):
     for f in (["f32"] if tier == "quick" else ["f32", "f64"]):
         cases.append({"op": "moments", "kind": "hmc", "f": f, "n_chains": 4, "n": 600 if tier == "quick" else 1500, "d": 100, "eps": 0.3, "L": 6,
                       "seeds": seeds(), "thr": thr, "truth": truth, "names": ["E x0", "E x1", "E x0^2", "E x1^2", "E x0 x1", "P(x0 > m+sd)"]})
+        # the same target after a restart: a short pilot run, then the public `positions` field is replaced by far-away points
+        cases.append({"op": "moments", "kind": "hmc", "f": f, "n_chains": 4, "n": 600 if tier == "quick" else 1500, "d": 150, "eps": 0.3, "L": 6,
+                      "restart": True, "seeds": seeds(), "thr": thr, "truth": truth,
+                      "names": ["E x0", "E x1", "E x0^2", "E x1^2", "E x0 x1", "P(x0 > m+sd)"]})
         cases.append({"op": "moments", "kind": "nuts", "f": f, "n_chains": 2, "n": 300 if tier == "quick" else 1000, "d": 150,
                       "seeds": seeds(), "thr": thr, "truth": truth, "names": ["E x0", "E x1", "E x0^2", "E x1^2", "E x0 x1", "P(x0 > m+sd)"]})
     for kind, f in [("hmc", "f32"), ("nuts", "f32"), ("hmc", "f64")]:
